@@ -992,18 +992,13 @@ def find_form_conjunction(A, body, I0, fr0, w):
     return dict(passing=passing, loops=1, flags=1, bad_flags=[], gate_ok=not ws3, site=A.site(w), fn=body.name)
 
 
-@prop("C13")
-def check_C13(A, R, tier):
+def rule_offer_guard(A, R, rule, need_success=True):
+    """the cleanup offer is guarded by the states of *all* direct downstreams: each passes only if it finished without failure"""
     C = A.classes()
     K = kinds(A)
     H = A.handler_runs()
-    T = A.transitions()
-    ready_f, cleanup_f = set_fields(A)
     CO = C["CleanupOffered"]
-    okdown = C["Finished"] - C["FailedLike"]
-    ok0 = set()
-    for f, tos in sig_writes(A, K["success"]).items():
-        ok0 |= tos
+    okdown = (C["Finished"] - C["FailedLike"]) if need_success else C["Finished"]
     # R13.1 the offer is guarded by the states of *all* direct downstreams ------------------------
     sp = A.signal_processor()
     # the function that performs the offer (found through the handler facts)
@@ -1017,18 +1012,33 @@ def check_C13(A, R, tier):
         raise Imprecision("anchor missing: no write into the cleanup offer in the done handler")
     res = loop_conjunction(A, offer_fn, lambda w: bool(set(w["to"]) & CO))
     R.info["offer_function"] = short(offer_fn)
-    R.ob("R13.1", "%s | offer write found with a downstream loop in front of it" % short(offer_fn), res is not None and res["loops"] >= 1,
+    R.ob(rule, "%s | offer write found with a downstream loop in front of it" % short(offer_fn), res is not None and res["loops"] >= 1,
          detail="cannot find the loop over the direct downstreams that guards the offer")
     if res is not None:
         for d in A.JS:
-            R.ob("R13.1", "cleanup offer | a direct downstream in state %s | blocks the offer unless it finished without failure" % A.sname(d),
+            R.ob(rule, "cleanup offer | a direct downstream in state %s | blocks the offer unless it finished%s" % (A.sname(d), " without failure" if need_success else ""),
                  (d not in res["passing"]) or d in okdown,
                  detail="a downstream in state %s leaves all guard flags of the offer raised" % A.sname(d), site=res["site"])
-        R.ob("R13.1", "%s | the downstream loop only lowers its flags (conjunction over all downstreams)" % short(offer_fn),
+        R.ob(rule, "%s | the downstream loop only lowers its flags (conjunction over all downstreams)" % short(offer_fn),
              not res["bad_flags"] and res["flags"] >= 1, detail="flags not monotone: %s" % res["bad_flags"])
-        R.ob("R13.1", "%s | the offer is dominated by all guard flags being raised" % short(offer_fn), res["gate_ok"],
+        R.ob(rule, "%s | the offer is dominated by all guard flags being raised" % short(offer_fn), res["gate_ok"],
              detail="the offer write is reachable with a lowered flag", site=res["site"])
-        R.floor("R13.1", "downstream states that pass the guard", len(res["passing"]), 1)
+        R.floor(rule, "downstream states that pass the guard", len(res["passing"]), 1)
+
+
+@prop("C13")
+def check_C13(A, R, tier):
+    C = A.classes()
+    K = kinds(A)
+    H = A.handler_runs()
+    T = A.transitions()
+    ready_f, cleanup_f = set_fields(A)
+    CO = C["CleanupOffered"]
+    okdown = C["Finished"] - C["FailedLike"]
+    ok0 = set()
+    for f, tos in sig_writes(A, K["success"]).items():
+        ok0 |= tos
+    rule_offer_guard(A, R, "R13.1")
     # R13.1b / R13.2 typestate of the offer --------------------------------------------------------
     after = set()
     n = 0
@@ -1591,6 +1601,12 @@ def check_C02(A, R, tier):
     rule_failure_propagation(A, R, "R2.4", "R2.4")
     # R2.5: an Ephemeral upstream is not skipped while a consuming downstream can still come to run
     rule_skip_decision(A, R, "R2.5")
+    # R2.6: an Ephemeral is offered for cleanup only when every direct downstream has finished (= R13.1): a job offered as ready
+    # later can therefore not have an upstream that was already offered for cleanup
+    rule_offer_guard(A, R, "R2.6", need_success=False)
+    # R2.7: an undecided consumer is never counted as 'does not need the Ephemeral' (= R5.5/R5.6): otherwise the Ephemeral is
+    # skipped for good and the consumer is later offered without its input having been executed
+    rule_undecided_downstream(A, R, "R2.7", "R2.7")
     # R2.3: get_job_output reports the field the success event stored
     gjo = A.evaluator_fn("get_job_output")
     r = A.joined_run(gjo)
